@@ -21,14 +21,14 @@ def parseId : Val → Option RawId
 /-- `[ id time obs value dose duration [foreign…] ]` -/
 def parseRow : Val → Option (RawRow Float)
   | .list [idv, t, ob, v, ds, du, fo] => do
-    some ⟨← parseId idv, ← Val.opt? Val.flt? t, ← Val.opt? Val.str? ob, ← Val.opt? Val.flt? v,
+    some ⟨← parseId idv, ← Val.opt? Val.flt? t, ← Val.opt? parseId ob, ← Val.opt? Val.flt? v,
           ← Val.opt? Val.flt? ds, ← Val.opt? Val.flt? du, ← fo.strs?⟩
   | _ => none
 
-def parsePairs (v : Val) : Option (List (String × String)) := do
+def parsePairs (v : Val) : Option (List (String × RawId)) := do
   let l ← v.list?
   l.mapM (fun p => match p with
-    | .list [.str a, .str b] => some (a, b)
+    | .list [.str a, b] => do some (a, ← parseId b)
     | _ => none)
 
 /-- `[ outputs obsMap|n covNames covMap|n hasDose hasDur hasPop ]` -/
